@@ -93,7 +93,15 @@ class Reject(Exception):
 def fresh_name(c: dict, skip: int = 0) -> str:
     ids = ids_of(c)
     free = [n for n in POOL if n not in ids]
-    return free[skip % len(free)] if free else f"m{len(ids)}"
+    if len(free) > skip:
+        return free[skip]
+    j = 0
+    extra = []
+    while len(extra) <= skip:
+        if f"m{j}" not in ids:
+            extra.append(f"m{j}")
+        j += 1
+    return extra[skip]
 
 
 def resolve_target(c: dict, kind: str, sel: dict) -> tuple[str, str]:
@@ -373,7 +381,7 @@ def plan(c: dict, op: dict):
         old_n = len(c["derived"][name]["args"]) if name in c["derived"] else len(op["args"])
         idx = op["args"]
         if which in ("fn", "args"):
-            idx = (idx * 4)[:old_n] if old_n else []
+            idx = ((idx or [0]) * 4)[:old_n] if old_n else []
         args = resolve_args(c, idx, op["wide"], exclude=name)
         fd = dict(op["fn"])
         if which in ("fn", "args"):
@@ -419,7 +427,7 @@ def plan(c: dict, op: dict):
         idx = op["args"]
         both = "fn" in which and "args" in which
         if not both:
-            idx = (idx * 4)[:old_n] if old_n else []
+            idx = ((idx or [0]) * 4)[:old_n] if old_n else []
         args = resolve_args(c, idx, op["wide"], exclude=name)
         fd = dict(op["fn"]) if both else _refit(dict(op["fn"]), old_n)
         sto = resolve_stoich(c, op["stoich"])
@@ -500,7 +508,7 @@ def plan(c: dict, op: dict):
         k = len(cur["outputs"])
         n_old = len(cur["args"])
         if which == "args":
-            args = resolve_args(c, (op["args"] * 4)[:n_old], op["wide"], exclude=name)
+            args = resolve_args(c, ((op["args"] or [0]) * 4)[:n_old], op["wide"], exclude=name)
             args = [a if a not in cur["outputs"] else "time" for a in args]
 
             def real(m):
